@@ -1,0 +1,10 @@
+//go:build verif
+
+package intervalst
+
+// VerifCheck exposes the structural invariant check of the tree
+// (subtree counts and max-endpoint augmentation).
+// Verification hook: only compiled with the `verif` build tag.
+func (t *IntervalST[T]) VerifCheck() bool {
+	return t.check()
+}
